@@ -181,3 +181,88 @@ def gen_items(seed, tier):
                 ops.append({"op": "update", "cell": ref})
         out.append(ops)
     return out
+
+
+CB_COMBOS = [(ok, tm, tg) for ok in ["table", "column", "row", "cell", "hcell", "foreign"]
+             for tm in ["add", "pre", "render", "post"] for tg in ["itself", "cell", "row"]]
+
+
+def rnd_owner(rng, b, kinds=None):
+    """A reference to an existing owner of builder b (None if none of that kind exists)."""
+    kinds = kinds or ["table", "column", "row", "cell"]
+    for _ in range(10):
+        k = rng.choice(kinds)
+        if k == "table":
+            return {"kind": "table", "t": rng.randint(1, b.ntables)}
+        if k == "column":
+            return None  # columns need the model's column count; callers handle them
+        if k == "row" and b.rows:
+            return {"kind": "row", "r": rng.randint(1, len(b.rows))}
+        if k == "cell":
+            cands = [i + 1 for i, r in enumerate(b.rows) if r["n"] > 0]
+            if cands:
+                r = rng.choice(cands)
+                return {"kind": "cell", "r": r, "c": rng.randint(1, b.rows[r - 1]["n"])}
+    return {"kind": "table", "t": 1}
+
+
+def gen_errors(seed, tier):
+    """C11: build histories with errors on rows/tables, failing callbacks at every level, raw containers."""
+    rng = random.Random(seed * 32452843 + 11)
+    n = 300 if tier == "quick" else 6000
+    out = []
+    for i in range(n):
+        b = GridBuilder(rng)
+        necs = 0
+        eid = 0
+        ncols = 0
+        for _ in range(rng.randint(3, 18)):
+            r = rng.random()
+            eid += 1
+            if r < 0.4:
+                before = len(b.ops)
+                b.step(maxcells=3, items=lambda: S(rng.choice(["a", "bb", ""])))
+                op = b.ops[-1]
+                if op["op"] in ("headers", "rowitems"):
+                    ncols = max(ncols, len(op["items"]))
+                ncols = max([ncols] + [x["n"] for x in b.rows if x["tbl"]])
+            elif r < 0.5 and b.rows:
+                cands = [j + 1 for j, x in enumerate(b.rows) if not x["sep"]]
+                if cands:
+                    b.ops.append({"op": "rowerr", "r": rng.choice(cands), "e": "nil" if rng.random() < 0.15 else "E%d" % eid})
+            elif r < 0.55:
+                b.ops.append({"op": "tblerr", "t": 1, "e": "nil" if rng.random() < 0.15 else "E%d" % eid})
+            elif r < 0.7:
+                # a failing callback somewhere sensible
+                choices = [({"kind": "table", "t": 1}, tm, tg) for tm, tg in
+                           [("add", "row"), ("add", "cell"), ("pre", "itself"), ("post", "itself"), ("pre", "cell"), ("render", "cell"), ("post", "cell")]]
+                for c in range(1, ncols + 1):
+                    choices += [({"kind": "column", "t": 1, "n": c}, tm, tg) for tm, tg in
+                                [("add", "cell"), ("pre", "cell"), ("post", "cell"), ("pre", "itself"), ("post", "itself")]]
+                for j, x in enumerate(b.rows):
+                    if not x["sep"]:
+                        choices += [({"kind": "row", "r": j + 1}, tm, tg) for tm, tg in
+                                    [("add", "cell"), ("pre", "cell"), ("post", "cell"), ("pre", "itself"), ("post", "row")]]
+                        for c in range(1, x["n"] + 1):
+                            choices.append(({"kind": "cell", "r": j + 1, "c": c}, "render", rng.choice(["itself", "cell"])))
+                o, tm, tg = rng.choice(choices)
+                b.ops.append({"op": "regcb", "t": 1, "owner": o, "time": tm, "target": tg, "fails": 1 if rng.random() < 0.8 else 0})
+            elif r < 0.8:
+                b.ops.append({"op": "rendercbs", "t": 1})
+            elif r < 0.86:
+                b.ops.append({"op": "ecnew", "kind": rng.choice(["made", "zero", "nil"])})
+                necs += 1
+            elif necs:
+                ec = rng.randint(1, necs)
+                k = rng.random()
+                if k < 0.3:
+                    b.ops.append({"op": "ecadd", "ec": ec, "e": "nil" if rng.random() < 0.2 else "E%d" % eid})
+                elif k < 0.7:
+                    lst = ["nil" if rng.random() < 0.3 else "E%d_%d" % (eid, q) for q in range(rng.randint(0, 4))]
+                    b.ops.append({"op": "ecaddlist", "ec": ec, "list": lst})
+                elif k < 0.9:
+                    b.ops.append({"op": "ecaddlist", "ec": ec, "from": rng.randint(1, necs)})
+                else:
+                    b.ops.append({"op": "ecaddlist", "ec": ec, "nillist": 1})
+        out.append(b.ops)
+    return out
